@@ -126,6 +126,9 @@ func c10R3(r *Run, li *c10LaxInfo) {
 			r.Check("only-"+side+":"+k, ok, "-", "function exists on the "+side+" side only: "+why)
 		}
 	}
+	for _, k := range res.FuncsPure {
+		r.Pass("pure-helper:"+k, "-", "function on one side only without receiver whose body only tests its integer / boolean parameters and locals for equality, copies them and returns one: it has no effect of its own; each call is evaluated as part of the decision table it stands in (compared with encoding/asn1 as a function), and a call anywhere else is a site the other side does not have")
+	}
 	for _, k := range res.FuncsOutside {
 		r.Pass("outside:"+k, "-", "function exists on the fork side only and lies outside the decoder: nothing but such functions refers to it (reachable from nothing compared), its receiver type — if any — occurs nowhere in decoder code, and it refers to no package-level function or variable of the fork other than such functions and write-only variables (it cannot call into the decoder, write what the decoder reads, or read anything but write-only variables)")
 	}
@@ -447,6 +450,9 @@ func c10R3Items(r *Run, res *fdResult, upFset *token.FileSet) {
 		if strings.HasPrefix(s.Text, "asgn ") {
 			k = "assignments:" + s.Fn
 		}
+		if s.tab != nil {
+			k = "decisions:" + s.Fn
+		}
 		d := diffs[k]
 		if d == nil {
 			d = &diff{where: where}
@@ -454,6 +460,10 @@ func c10R3Items(r *Run, res *fdResult, upFset *token.FileSet) {
 		}
 		if side == "fork" {
 			d.where = where
+		}
+		if s.tab != nil && side == "fork" {
+			d.items = append([]string{side + " only: `" + s.Text + "`"}, d.items...) // the one that names the input
+			return
 		}
 		d.items = append(d.items, side+" only: `"+s.Text+"`")
 	}
@@ -464,8 +474,15 @@ func c10R3Items(r *Run, res *fdResult, upFset *token.FileSet) {
 		report(s, "fork", r.P.Pos(s.Pos))
 	}
 	for _, fn := range res.Compared {
-		for _, kind := range [][2]string{{"conditions", "branch conditions (if / for / range / switch clauses)"}, {"assignments", "assignments to named results and to variables that flow into returned values"}} {
+		for _, kind := range [][2]string{{"decisions", "decision tables (runs of equality tests and copies over integer variables, compared with encoding/asn1 as the functions they compute: strict mode must accept what encoding/asn1 accepts, with an equal value)"},
+			{"conditions", "branch conditions (if / for / range / switch clauses)"}, {"assignments", "assignments to named results and to variables that flow into returned values"}} {
 			d := diffs[kind[0]+":"+fn]
+			if d == nil && kind[0] == "decisions" {
+				if n, ok := res.Tables[fn]; ok {
+					r.Pass(kind[0]+":"+fn, "-", fmt.Sprintf("%d run(s) of equality tests and copies over integer variables in the strict residual of %s compute the same function as their counterpart in encoding/asn1 (decided on every abstract input)", n[0], fn))
+				}
+				continue
+			}
 			if d == nil {
 				r.Pass(kind[0]+":"+fn, "-", "the strict residual of "+fn+" has the same multiset of "+kind[1]+" as encoding/asn1 (modulo the drift table)")
 				continue
